@@ -331,3 +331,61 @@ Definition model_compare_float (exactf : num -> option Z) (swap : bool) (bits : 
   | Panic => Some Panic
   | OutOfGas => Some OutOfGas
   end.
+
+(* ---- integer literals from their source text: lexer.rs::eat_number (integer states) ----
+   Characters are code points.  The radix comes from the two-character prefix 0b/0B, 0o/0O, 0x/0X
+   (else 10); the scan accepts decimal digits in every state (whatever the radix), a-f/A-F in the
+   hexadecimal state, and `_` anywhere; `_` at the end is an error, all others are dropped; then
+   u64::from_str_radix, else u128::from_str_radix, else "invalid integer (too large)" - also for an
+   empty digit string and for a digit the radix does not have.  [None]: the text is not one integer
+   token (a float, or something follows the number): not modelled. *)
+Definition is_dec (c : Z) : bool := (48 <=? c) && (c <=? 57).
+Definition is_hexletter (c : Z) : bool := ((97 <=? c) && (c <=? 102)) || ((65 <=? c) && (c <=? 70)).
+Definition digit_val (c : Z) : Z := if is_dec c then c - 48 else if 97 <=? c then c - 87 else c - 55.
+
+(* the scan loop: (characters of the number, rest); None when the number becomes a float *)
+Fixpoint scan_number (radix : Z) (cs : list Z) : option (list Z * list Z) :=
+  match cs with
+  | [] => Some ([], [])
+  | c :: r =>
+      if (radix =? 10) && ((c =? 46) || (c =? 69) || (c =? 101)) then None
+      else if is_dec c || ((radix =? 16) && is_hexletter c) || (c =? 95) then
+        match scan_number radix r with
+        | Some (acc, rest) => Some (c :: acc, rest)
+        | None => None
+        end
+      else Some ([], cs)
+  end.
+
+Definition split_radix (cs : list Z) : Z * list Z :=
+  match cs with
+  | z :: p :: r =>
+      if negb (z =? 48) then (10, cs)
+      else if (p =? 98) || (p =? 66) then (2, r)
+      else if (p =? 111) || (p =? 79) then (8, r)
+      else if (p =? 120) || (p =? 88) then (16, r)
+      else (10, cs)
+  | _ => (10, cs)
+  end.
+
+(* {u64,u128}::from_str_radix on the characters: empty and foreign digits are errors like overflow *)
+Definition lex_digits (radix : Z) (ds : list Z) : outcome num :=
+  match ds with
+  | [] => Err E_SyntaxError
+  | _ => if forallb (fun c => digit_val c <? radix) ds then lex_int radix (map digit_val ds) else Err E_SyntaxError
+  end.
+
+Definition lex_number_text (cs : list Z) : option (outcome num) :=
+  let '(radix, body) := split_radix cs in
+  match scan_number radix body with
+  | None => None
+  | Some (tok, rest) =>
+      match rest with
+      | _ :: _ => None
+      | [] =>
+          if existsb (Z.eqb 95) tok then
+            if last tok 0 =? 95 then Some (Err E_SyntaxError)
+            else Some (lex_digits radix (filter (fun c => negb (c =? 95)) tok))
+          else Some (lex_digits radix tok)
+      end
+  end.
